@@ -74,8 +74,8 @@ theorem c31_hist_min_max (c : HCfg) (h : List (List (Option Nat)))
         rw [e, ← this]; exact hy
       · exact e
 
--- OBLIGATION c31_hist_buckets : HwExpHistogram with bucket_count >= 2: bucket i = (number of samples x with lo_i <= x < hi_i) mod 2^registers_width, where the ranges are the documented [0,1); [1,2); [2,4); ... ; [2^(n-2), inf)  (bucket_count = 1 is excluded: finding F4, see c31_hist_one_bucket)
-theorem c31_hist_buckets (c : HCfg) (hn : 2 ≤ c.n) (h : List (List (Option Nat)))
+-- OBLIGATION c31_hist_buckets : HwExpHistogram, every bucket_count >= 1: bucket i = (number of samples x with lo_i <= x < hi_i) mod 2^registers_width, where the ranges are the documented [0,1); [1,2); [2,4); ... ; [2^(n-2), inf); a single bucket has the range [0, inf) and counts every sample (former finding F4, repaired in 0ffe71b)
+theorem c31_hist_buckets (c : HCfg) (h : List (List (Option Nat)))
     (hfit : ∀ x ∈ samples h, x < 2 ^ c.sw) :
     (c.run c.init h).buckets
       = (List.range c.n).map fun i => (samples h).countP (inBucket c.n i) % 2 ^ c.rw := by
@@ -86,7 +86,7 @@ theorem c31_hist_buckets (c : HCfg) (hn : 2 ≤ c.n) (h : List (List (Option Nat
   congr 1
   apply List.countP_congr
   intro x hx
-  rw [shouldIncr_eq c i x hn (List.mem_range.mp hi) (hfit x hx)]
+  rw [shouldIncr_eq c i x (List.mem_range.mp hi) (hfit x hx)]
 
 -- OBLIGATION c31_hist_bucket_log2 : the bucket ranges are the exponential ones: a sample x is in bucket 0 iff x = 0 and a non-zero x is in bucket min(floor(log2 x) + 1, n - 1); in particular every sample is counted in exactly one bucket
 theorem c31_hist_bucket_log2 (n i x : Nat) (hn : 2 ≤ n) (hi : i < n) :
@@ -138,14 +138,13 @@ theorem c31_hist_bucket_log2 (n i x : Nat) (hn : 2 ≤ n) (hi : i < n) :
         refine ⟨?_, Or.inl (by omega)⟩
         exact Nat.le_trans (Nat.pow_le_pow_right (by omega) (by omega)) hlo
 
-/-- F4 (not an obligation — it documents what the code does at the excluded point): with
-    `bucket_count = 1` the only bucket, documented as `[0, +inf)`, counts the zero samples only,
-    because the `i == 0` branch of metrics.py:475 is taken before the last-bucket branch. -/
+-- OBLIGATION c31_hist_one_bucket : HwExpHistogram with bucket_count = 1: the only bucket, documented as [0, +inf), counts every sample (mod 2^registers_width) — the regression statement of the repaired finding F4
 theorem c31_hist_one_bucket (c : HCfg) (hn : c.n = 1) (h : List (List (Option Nat))) :
-    (c.run c.init h).buckets = [(samples h).count 0 % 2 ^ c.rw] := by
+    (c.run c.init h).buckets = [(samples h).length % 2 ^ c.rw] := by
   rw [HCfg.init_eq_spec, HCfg.run_spec]
   simp only [HCfg.spec, List.nil_append, hn, List.range_one, List.map_cons, List.map_nil]
   congr 2
+  simp [HCfg.shouldIncr, hn]
 
 /-- non-vacuity: a 3-bit counter with 3 ways wraps around (9 calls → 1) -/
 example : (Counter.run (Counter.init 3) [[true, true, true], [true, false, true], [true, true, true], [false, true, false]]).count = 1 := by
@@ -165,6 +164,12 @@ example :
     c.oneHot = false ∧ c.run c.init [[some (-2), some 3], [some (-2), some 1], [none, some 0]] = [2, 1, 1] := by
   decide +kernel
 
+/-- non-vacuity: a single bucket counts the samples 0, 1, 5 (the former F4 witness) -/
+example :
+    let c : HCfg := { n := 1, sw := 3, rw := 4 }
+    (c.run c.init [[some 0], [some 1], [some 5], [none]]).buckets = [3] := by
+  decide +kernel
+
 /-- non-vacuity: 4 buckets, 3-bit samples, 2-bit registers (count wraps), two ways -/
 example :
     let c : HCfg := { n := 4, sw := 3, rw := 2 }
@@ -182,3 +187,4 @@ end TxV.Metrics
 #print axioms TxV.Metrics.c31_hist_min_max
 #print axioms TxV.Metrics.c31_hist_buckets
 #print axioms TxV.Metrics.c31_hist_bucket_log2
+#print axioms TxV.Metrics.c31_hist_one_bucket
